@@ -73,6 +73,8 @@ def main(argv):
     ap.add_argument("--first", type=int, default=0)
     args = ap.parse_args(argv)
     t0 = time.time()
+    os.environ.pop("CVSSSIM_TMP", None)  # every invocation owns (and removes) its own scratch directory
+    core._tmp_base()
     try:
         if args.what == "setup":
             from . import setup_check
